@@ -213,6 +213,8 @@ impl ObjectStore for SimStore {
             return Err(object_store::Error::NotImplemented);
         }
         let bytes: Bytes = Bytes::from(payload.as_ref().iter().flat_map(|b| b.iter().copied()).collect::<Vec<u8>>());
+        // what is written is part of the execution: the log (and so the determinism audit) covers its content
+        sim::log(format!("PAYLOAD n{} {path} {}B fnv={:016x}", self.node, bytes.len(), sim::hash_bytes(&bytes)));
         let r = self.inner.put_opts(location, payload, opts).await;
         let keep_data = KEEP_DATA_PAYLOADS.with(|k| k.get());
         let keep = if (keep_data || !path.ends_with(".parquet")) && bytes.len() <= (1 << 20) { Some(bytes) } else { None };
